@@ -572,6 +572,17 @@ fn c11(src: &str) -> R {
                 return Err(format!("`*` at token {i} inside a statement was lexed as a comment"));
             }
         }
+        // a datalines word at statement start that is followed (after white space) by `;` starts a datalines block
+        if k.ty == T::Identifier {
+            let w = src[k.b0..k.b1].to_ascii_lowercase();
+            if matches!(w.as_str(), "datalines" | "cards" | "lines" | "datalines4" | "cards4" | "lines4") {
+                let at_start = match last_default { None => true, Some(p) => p.ty == T::SEMI };
+                let next = src[k.b1..].chars().find(|c| !c.is_whitespace());
+                if at_start && next == Some(';') {
+                    return Err(format!("`{w}` at token {i} starts a statement and is followed by `;` but was lexed as an identifier"));
+                }
+            }
+        }
         // identifiers and keywords are longest matches: `_`/XID_Start, then XID_Continue, and no identifier character follows
         let name = format!("{:?}", k.ty);
         if k.ty == T::Identifier || (name.starts_with("Kw") && !name.starts_with("Kwm") && k.b1 > k.b0 && src[k.b0..].starts_with(|c: char| c == '_' || unicode_ident::is_xid_start(c))) {
